@@ -27,12 +27,16 @@ TEXT = {
     "astar": 'export * from "./m2";\nexport type M = { x: "as" };\n',
     "aunres": 'export type Other = string;\n',
     "abroken": 'export type M = {{{{ \n',
+    "a1d": '/** the first description */\nexport type M = { x: "a1" };\n',
+    "a1e": '/** another description, after an edit */\nexport type M = { x: "a1" };\n',
+    "aloc": 'export type M = { x: Nope };\n',
+    "aloc2": '\n\n    export type M = { x: Nope };\n',
     "b1": 'export type N = "b1";\nexport const KV = ["k1"] as const;\n',
     "b2": 'export type N = "b2";\nexport const KV = ["k2"] as const;\n',
     "bbroken": 'export type N = ((( ;\n',
 }
 PATH = {"entry": "entry.ts", "m1": "m1.ts", "m2": "m2.ts"}
-VARIANTS = {"entry": ["e1", "e2", "e3n", "e4v", "ebroken"], "m1": ["a1", "a2", "a3imp", "a4imp", "astar", "aunres", "abroken"], "m2": ["b1", "b2", "bbroken"]}
+VARIANTS = {"entry": ["e1", "e2", "e3n", "e4v", "ebroken"], "m1": ["a1", "a2", "a3imp", "a4imp", "astar", "aunres", "abroken", "a1d", "a1e", "aloc", "aloc2"], "m2": ["b1", "b2", "bbroken"]}
 
 
 def model(tag, deviations, design=False):
